@@ -572,7 +572,13 @@ func genProgram(t *rapid.T, info poolInfo) *pst {
 		genShape(t, s)
 	}
 	// main operator
-	switch m := ir(t, -3, 24, "main"); {
+	m := ir(t, -3, 24, "main")
+	if s.class == "total" && ir(t, 0, 3, "keep-pool-order") == 0 {
+		// pool-key order over distinct keys followed by head/tail is the only shape whose head/tail the optimizer lifts
+		// into the legs (behind a lifted sort it does not), so keep it frequent
+		m = 0
+	}
+	switch {
 	case m < 0 || m >= 23:
 		genSummarize(t, s)
 	case m < 3:
